@@ -67,6 +67,7 @@ def main(argv):
     cubes = mod.cubes(tier, has_fc)
     nsl = getattr(mod, 'QUERY_SLICES', 1)
     if nsl > 1: cubes = [dict(c, qslice=(i, nsl)) for c in cubes for i in range(nsl)]
+    if tier == 'thorough': os.environ.setdefault('VERIF_CROSS_SOLVER', '1')   # two solvers on the cheap unsat verdicts
     timeout_ms = int(os.environ.get('VERIF_QUERY_TIMEOUT_S', '240' if tier == 'quick' else '1500')) * 1000
     replay_dir = os.environ.get('VERIF_CEX', os.path.join(VERIF, 'counterexamples'))
     try: harness.build_replay(has_fc)
